@@ -371,6 +371,9 @@ def classify_f(decl, dims, is_result=False):
         size = F_KINDS[kindname]
     if deferred or alloc:
         return ("cfi",)
+    if is_result and arr:
+        # Fortran 2018 18.3.7: the result of an interoperable function is a scalar
+        return ("unknown", "array-valued function result: " + " ".join(decl))
     if (byval or is_result) and not arr:
         return ("val", kindmap[t], size)
     return ("ptr", kindmap[t], size)
